@@ -171,6 +171,37 @@ func multiConsumer(k, n int) Prog {
 	return Prog{Name: fmt.Sprintf("multiconsumer-k%d-n%d", k, n), Src: w.String()}
 }
 
+// fixedConsumers: several consumers take a fixed number of values each from a
+// small buffered channel that a producer keeps filling; the total is n(n+1)/2.
+func fixedConsumers(workers, n int) Prog {
+	src := hdr() + fmt.Sprintf(`func main() {
+	jobs := make(chan int, 2)
+	partial := make(chan int)
+	go func() {
+		for i := 1; i <= %d; i++ {
+			jobs <- i
+		}
+	}()
+	for w := 0; w < %d; w++ {
+		go func() {
+			s := 0
+			for i := 0; i < %d; i++ {
+				v := <-jobs
+				s += v
+			}
+			partial <- s
+		}()
+	}
+	total := 0
+	for w := 0; w < %d; w++ {
+		total += <-partial
+	}
+	println("total", total)
+}
+`, n, workers, n/workers, workers)
+	return Prog{Name: fmt.Sprintf("fixedconsumers-w%d-n%d", workers, n), Src: src}
+}
+
 // nativeGo: a native (host) function started with the go statement several
 // times in a row; gc gets the same function defined locally.
 func nativeGo(n int) Prog {
@@ -226,7 +257,7 @@ func Programs(tier string) []Prog {
 	}
 	ps = append(ps, loopVar(2), loopVar(3))
 	ps = append(ps, recvSelectDone(1), recvSelectDone(2))
-	ps = append(ps, selectShapes(), multiConsumer(2, 3), nativeGo(2), nativeGo(3))
+	ps = append(ps, selectShapes(), multiConsumer(2, 3), nativeGo(2), nativeGo(3), fixedConsumers(2, 4))
 	if tier == "thorough" {
 		ps = append(ps, multiConsumer(3, 4), nativeGo(8))
 	}
